@@ -1703,3 +1703,116 @@ Proof.
   fold votes. rewrite <- (ballot_len (s_colony s) sc). fold votes.
   apply fraction_share_proof; assumption.
 Qed.
+
+(* ====================================================================== *)
+(* time: slow voters, timeout_seconds                                       *)
+
+Definition tproj (x : tstate * (nat -> behaviour) * (nat -> Q) * outcome)
+  : qstate * (nat -> behaviour) * outcome :=
+  (t_q (fst (fst (fst x))), snd (fst (fst x)), snd x).
+
+Lemma tstep_q : forall lg ts o,
+  t_q (tstep lg ts o) = final_state lg (t_q ts) (untimed o).
+Proof. intros lg ts o. destruct o; reflexivity. Qed.
+
+(* the clock, the delays and timeout_seconds have no influence on any outcome or
+   on the instance: a timed history is its untimed history *)
+Lemma timing_irrelevant_proof : forall lg ops ts,
+  map tproj (ttrace lg ts ops) = trace lg (t_q ts) (flat_map untimed ops) /\
+  t_q (tfinal lg ts ops) = final_state lg (t_q ts) (flat_map untimed ops).
+Proof.
+  intros lg ops. induction ops as [| o r IH]; intro ts; [split; reflexivity |].
+  cbn [ttrace tfinal flat_map]. rewrite map_app, trace_app, final_state_app.
+  destruct (IH (tstep lg ts o)) as [IH1 IH2]. rewrite IH1, IH2, tstep_q.
+  split; [| reflexivity]. f_equal.
+  destruct o as [o' | sc d | sc d k | t]; try reflexivity.
+  destruct o'; reflexivity.
+Qed.
+
+(* every aggregated vote of a timed history was decided on one ballot per member
+   of the colony of that moment - whatever the members' delays and whatever
+   timeout_seconds is *)
+Lemma timed_vote_proof : forall lg ops ts s sc d o,
+  In (s, sc, d, o) (ttrace lg ts ops) ->
+  o = aggregate lg (s_cfg (t_q s)) (collect (voters_of (s_colony (t_q s)) sc)) /\
+  (forall r, o = Result r ->
+     r_total r = len (s_colony (t_q s)) /\
+     r_permit r = count_voters (casts Permit) (voters_of (s_colony (t_q s)) sc) /\
+     r_block r = count_voters (casts Block) (voters_of (s_colony (t_q s)) sc) /\
+     r_abstain r = count_voters (casts Abstain) (voters_of (s_colony (t_q s)) sc) /\
+     r_votes r = collect (voters_of (s_colony (t_q s)) sc)).
+Proof.
+  intros lg ops ts s sc d o H.
+  assert (H' : In (t_q s, sc, o) (trace lg (t_q ts) (flat_map untimed ops))).
+  { rewrite <- (proj1 (timing_irrelevant_proof lg ops ts)).
+    change (t_q s, sc, o) with (tproj (s, sc, d, o)). apply in_map. exact H. }
+  split.
+  - exact (proj2 (trace_sound _ _ _ _ _ _ H')).
+  - intros r E. exact (history_counts_proof _ _ _ _ _ _ _ H' E).
+Qed.
+
+Lemma sum_delays_nonneg : forall colony d i,
+  (forall j, 0 <= d j) -> 0 <= sum_delays i colony d.
+Proof.
+  induction colony as [| p r IH]; intros d i Hd; cbn [sum_delays]; [lra |].
+  specialize (IH d (S i) Hd). specialize (Hd i). lra.
+Qed.
+
+Lemma answer_times_bound : forall colony d i t,
+  (forall j, 0 <= d j) ->
+  Forall (fun a => a <= t + sum_delays i colony d) (answer_times i t colony d).
+Proof.
+  induction colony as [| p r IH]; intros d i t Hd; cbn [answer_times sum_delays]; [constructor |].
+  constructor.
+  - pose proof (sum_delays_nonneg r d (S i) Hd). lra.
+  - eapply Forall_impl; [| apply (IH d (S i) (t + d i) Hd)].
+    cbn beta. intros a Ha. lra.
+Qed.
+
+Lemma answer_times_length : forall colony d i t, length (answer_times i t colony d) = length colony.
+Proof. induction colony as [| p r IH]; intros; cbn; [reflexivity | rewrite IH; reflexivity]. Qed.
+
+Lemma filter_all : forall (A : Type) (f : A -> bool) l, Forall (fun a => f a = true) l -> filter f l = l.
+Proof.
+  intros A f l H. induction H as [| a l Ha _ IH]; [reflexivity |]. cbn. rewrite Ha, IH. reflexivity.
+Qed.
+
+(* with delays >= 0, every member's agent has answered by the time vote
+   collection is over: no answer is still on its way when run_vote returns *)
+Lemma all_answered_proof : forall colony d,
+  (forall j, 0 <= d j) ->
+  Forall (fun a => a <= returns_at colony d) (answer_times 0 0 colony d) /\
+  answered_within colony d = len colony.
+Proof.
+  intros colony d Hd.
+  assert (B : Forall (fun a => a <= returns_at colony d) (answer_times 0 0 colony d)).
+  { eapply Forall_impl; [| apply (answer_times_bound colony d 0%nat 0 Hd)].
+    cbn beta. unfold returns_at. intros a Ha. lra. }
+  split; [exact B |].
+  unfold answered_within. rewrite filter_all.
+  - unfold len. rewrite answer_times_length. reflexivity.
+  - eapply Forall_impl; [| exact B]. cbn beta. intros a Ha. apply Qle_bool_iff. exact Ha.
+Qed.
+
+(* the vote that follows a run_vote call - however long that call's voters took,
+   whatever timeout_seconds was, however it ended - is decided as if the call
+   had not happened *)
+Lemma vote_after_timed_call_proof : forall lg ts o sc2,
+  call_of o <> None ->
+  let ts' := tstep lg ts o in
+  run_vote lg (s_cfg (t_q ts')) (voters_of (s_colony (t_q ts')) sc2) =
+  run_vote lg (s_cfg (t_q ts)) (voters_of (s_colony (t_q ts)) sc2).
+Proof.
+  intros lg ts o sc2 H ts'. unfold ts'. rewrite tstep_q.
+  destruct o as [o' | sc d | sc d k | t]; cbn [untimed final_state].
+  - destruct o'; try (exfalso; apply H; reflexivity);
+      apply (vote_after_call_proof lg (t_q ts)); exact I.
+  - apply (vote_after_call_proof lg (t_q ts) (OVote sc)); exact I.
+  - apply (vote_after_call_proof lg (t_q ts) (OInterrupted sc k)); exact I.
+  - exfalso; apply H; reflexivity.
+Qed.
+
+(* assigning timeout_seconds changes nothing but timeout_seconds *)
+Lemma set_timeout_proof : forall lg ts t,
+  t_q (tstep lg ts (TSetTimeout t)) = t_q ts /\ t_timeout (tstep lg ts (TSetTimeout t)) = t.
+Proof. intros. split; reflexivity. Qed.
